@@ -156,6 +156,45 @@ func run(c Case) (res ev.Result) {
 			}
 		}
 	}
+	// two independent sources decoded alternately: no state may leak from one stream to the other
+	if len(c.Cuts) > 0 {
+		ra := &faultio.FragReader{Data: c.Stream, Cuts: c.Cuts[0]}
+		rb := &faultio.FragReader{Data: c.Stream, Cuts: c.Cuts[len(c.Cuts)-1], EOFWithData: true}
+		var oa, ob []outcome
+		failed := ev.TryTimeout(ev.Watchdog, func() {
+			doneA, doneB := false, false
+			for calls := 0; !(doneA && doneB); calls++ {
+				if calls > 2*budget {
+					panic("no end of input while reading two streams alternately")
+				}
+				for _, x := range []struct {
+					r    io.Reader
+					outs *[]outcome
+					done *bool
+				}{{ra, &oa, &doneA}, {rb, &ob, &doneB}} {
+					if *x.done {
+						continue
+					}
+					msg, ts, err := midicat.ReadAndConvert(x.r)
+					switch {
+					case err == io.EOF:
+						*x.done = true
+					case err != nil:
+						*x.outs = append(*x.outs, outcome{ok: false})
+					default:
+						*x.outs = append(*x.outs, outcome{ok: true, rec: lineproto.Record{TS: ts, Msg: append([]byte{}, msg...)}})
+					}
+				}
+			}
+		})
+		for _, o := range [][]outcome{oa, ob} {
+			if s := checkSeq("two streams read alternately", o, failed); s != "" {
+				res.Violation = s
+				return
+			}
+		}
+		res.Classes = append(res.Classes, "two-streams-alternately")
+	}
 	res.Nontrivial = len(want) >= 2 && (insideLine || afterBad)
 	if afterBad {
 		res.Classes = append(res.Classes, "well-formed-line-after-malformed")
@@ -263,7 +302,7 @@ func genCase(t *rapid.T) Case {
 }
 
 var streams = ev.NewCheck("C19", "line-streams",
-	"rapid: 1..12 records (time stamps over int32 incl. negatives and extremes, messages of 1..2000 arbitrary bytes) encoded like the driver (\"%d %X\\n\"); optionally lines damaged by: one hex digit removed, a hex digit or a time-stamp digit replaced by a character from [g-zG-Z_#@!,;], separator removed, newline removed (two lines merge / stream ends unterminated), message removed, time stamp outside int32, damaged time stamp followed by a complete record on the same line, doubled separator, separator inside the data; read from memory, one byte per call, a single read and 1..4 random partitions, each also with the last bytes delivered together with io.EOF; oracle = line model (split at newline; well formed iff -?[0-9]+ SP ([0-9A-F]{2})+): calling ReadAndConvert until io.EOF yields exactly the records of the well-formed lines in order, at least one error per malformed line, no panic, terminates within len(stream)+3 calls, and the same outcome sequence for every fragmentation; non-trivial = >= 2 records and (a read boundary inside a line or a well-formed line after a malformed one); distinct by stream bytes",
+	"rapid: 1..12 records (time stamps over int32 incl. negatives and extremes, messages of 1..2000 arbitrary bytes) encoded like the driver (\"%d %X\\n\"); optionally lines damaged by: one hex digit removed, a hex digit or a time-stamp digit replaced by a character from [g-zG-Z_#@!,;], separator removed, newline removed (two lines merge / stream ends unterminated), message removed, time stamp outside int32, damaged time stamp followed by a complete record on the same line, doubled separator, separator inside the data; read from memory, one byte per call, a single read and 1..4 random partitions, each also with the last bytes delivered together with io.EOF; oracle = line model (split at newline; well formed iff -?[0-9]+ SP ([0-9A-F]{2})+): calling ReadAndConvert until io.EOF yields exactly the records of the well-formed lines in order, at least one error per malformed line, no panic, terminates within len(stream)+3 calls, the same outcome sequence for every fragmentation, and also when two copies of the stream are decoded alternately call by call (no state shared between sources); non-trivial = >= 2 records and (a read boundary inside a line or a well-formed line after a malformed one); distinct by stream bytes",
 	genCase, run)
 
 func TestPropLineStreams(t *testing.T) { streams.Rapid(t, 2500, 30000) }
